@@ -92,7 +92,10 @@ def monitor(sc, obs):
                 r = pyeval.verdict(v, f['sig'], args, kws)
                 if r[0] != 'accept':
                     first = configured(v, 'PreContractError') if r[0] == 'reject' else r[1]; break
-            if not (act.kind == 'X' and act.exc_class in ('TypeError', first)) or act.bodies():
+            ok_classes = {'TypeError', first}
+            if f['kind'] != 'gen' and any(it[0] == 'raises' for it in f['stack']):
+                ok_classes.add('RaisesContractError')      # the TypeError of the call itself is an exception the raises contract does not list (C03)
+            if not (act.kind == 'X' and act.exc_class in ok_classes) or act.bodies():
                 out.append((f'call that the function itself rejects (TypeError) gave {act.outcome!r}, bodies={act.bodies()}', sig_tag))
             continue
         expect_body, expect_exc, ran = True, None, []
